@@ -1,6 +1,6 @@
 (* C09 — what merge does to a single node (parameter, field, method, class) and to a whole set. *)
 From FB Require Import C09.Model C09.Theory.
-From Coq Require Import Lia.
+From Coq Require Import Lia PeanoNat.
 
 (* ---------- combinations of well-formed nodes with the same key ---------- *)
 Definition cwf {V} (P : V -> Prop) (c : comb V) : Prop :=
@@ -73,10 +73,17 @@ Proof.
 Qed.
 
 Lemma names_from_ok l : forallb cell_ok l = true -> names_from l = Ok l.
-Proof. unfold names_from, cell_ok. intros ->. reflexivity. Qed.
+Proof.
+  intros H. unfold names_from.
+  match goal with |- (if ?b then _ else _) = _ => replace b with true by (symmetry; exact H) end.
+  reflexivity.
+Qed.
 
 Lemma names_ok3 a b c : cell_ok a = true -> cell_ok b = true -> cell_ok c = true -> names_ok 3 [a; b; c] = true.
-Proof. unfold names_ok, cell_ok. cbn [length Nat.eqb forallb]. intros -> -> ->. reflexivity. Qed.
+Proof.
+  intros Ha Hb Hc. unfold names_ok. cbn [length Nat.eqb forallb andb].
+  change (cell_ok a && (cell_ok b && (cell_ok c && true)) = true). rewrite Ha, Hb, Hc. reflexivity.
+Qed.
 
 Lemma opt_str_eqb_false (a b : option str) : opt_eqb str_eqb a b = false <-> a <> b.
 Proof. apply (eqb_ok_false _ (opt_eqb_ok _ str_eqb_ok)). Qed.
@@ -85,11 +92,6 @@ Proof. apply (opt_eqb_ok _ str_eqb_ok). Qed.
 
 (* merge_names on rows of two legal cells: fails exactly when both sides are present and their
    first cells differ; otherwise the merged row is row3 *)
-Lemma merge_names_spec {V} (nm : V -> names) (c : comb V) :
-  cwf (fun x => names_ok 2 (nm x) = true) c ->
-  (nth_name_differs : Prop)%type = (nth_name_differs : Prop)%type.
-Abort.
-
 Definition first_differs {V} (nm : V -> names) (c : comb V) : Prop :=
   match c with CAB x y => nth_name (nm x) 0 <> nth_name (nm y) 0 | _ => False end.
 
@@ -138,4 +140,431 @@ Lemma merge_equal_same {T V} (eqb : T -> T -> bool) (Hok : eqb_ok eqb) (g : V ->
 Proof.
   destruct c as [x|y|x y]; cbn [cmap merge_equal]; try reflexivity.
   intros ->. rewrite (eqb_ok_refl eqb Hok). reflexivity.
+Qed.
+
+(* ---------- bind ---------- *)
+Lemma bind_err {A B} (r : res A) (k : A -> res B) :
+  bind r k = Err <-> r = Err \/ exists x, r = Ok x /\ k x = Err.
+Proof.
+  destruct r as [x|]; cbn [bind].
+  - split; [intros H; right; exists x; auto|]. intros [H|(y & [= <-] & H)]; [discriminate|exact H].
+  - split; [auto|reflexivity].
+Qed.
+
+Lemma cwf_impl {V} (P Q : V -> Prop) (c : comb V) : (forall x, P x -> Q x) -> cwf P c -> cwf Q c.
+Proof. intros H. destruct c; cbn [cwf]; intuition. Qed.
+
+Lemma first_name_nth (l : names) : first_name l = nth_name l 0.
+Proof. destruct l as [|[x|] l]; reflexivity. Qed.
+
+Lemma first_name_row3 (a b : option names) :
+  first_name (row3 a b) = match a with Some l => nth_name l 0 | None => col 0 b end.
+Proof.
+  unfold row3. destruct a as [l|]; cbn [first_name col].
+  - destruct (nth_name l 0); reflexivity.
+  - destruct (col 0 b); reflexivity.
+Qed.
+
+(* ---------- well-formed nodes ---------- *)
+Definition Pparam (p : param) : Prop := wf_param 2 p = true.
+Definition Pfield (f : field) : Prop := wf_field 2 f = true.
+Definition Pmeth (m : meth) : Prop := wf_meth 2 m = true.
+Definition Pclass (c : class) : Prop := wf_class 2 c = true.
+
+Lemma field_shape n f : wf_field n f = true ->
+  names_ok n (f_names f) = true /\ exists s, nth_name (f_names f) 0 = Some s /\ field_key f = Some (s, f_desc f).
+Proof.
+  unfold wf_field. rewrite andb_true_iff. intros [Hn Hk]. split; [exact Hn|].
+  unfold field_key in *. rewrite first_name_nth in *.
+  destruct (nth_name (f_names f) 0) as [s|]; [|discriminate]. exists s. auto.
+Qed.
+
+Lemma meth_shape n m : wf_meth n m = true ->
+  names_ok n (m_names m) = true
+  /\ (exists s, nth_name (m_names m) 0 = Some s /\ meth_key m = Some (s, m_desc m))
+  /\ Forall (fun p => wf_param n p = true) (m_params m)
+  /\ NoDup (map param_key (m_params m)).
+Proof.
+  unfold wf_meth. rewrite !andb_true_iff. intros [[[Hn Hk] Hp] Hd]. split; [exact Hn|].
+  split.
+  - unfold meth_key in *. rewrite first_name_nth in *.
+    destruct (nth_name (m_names m) 0) as [s|]; [|discriminate]. exists s. auto.
+  - split; [apply Forall_forall; apply forallb_forall; exact Hp|].
+    apply (nodupb_NoDup N.eqb N_eqb_ok). exact Hd.
+Qed.
+
+Lemma class_shape n c : wf_class n c = true ->
+  names_ok n (c_names c) = true
+  /\ (exists s, nth_name (c_names c) 0 = Some s /\ class_key c = Some s)
+  /\ Forall (fun f => wf_field n f = true) (c_fields c) /\ NoDup (map field_key (c_fields c))
+  /\ Forall (fun m => wf_meth n m = true) (c_methods c) /\ NoDup (map meth_key (c_methods c)).
+Proof.
+  unfold wf_class. rewrite !andb_true_iff. intros [[[[[Hn Hk] Hf] Hfd] Hm] Hmd]. split; [exact Hn|].
+  split.
+  - unfold class_key in *. rewrite first_name_nth in *.
+    destruct (nth_name (c_names c) 0) as [s|]; [|discriminate]. exists s. auto.
+  - split; [apply Forall_forall; apply forallb_forall; exact Hf|].
+    split; [apply (nodupb_NoDup mkeqb mkeqb_ok); exact Hfd|].
+    split; [apply Forall_forall; apply forallb_forall; exact Hm|].
+    apply (nodupb_NoDup mkeqb mkeqb_ok). exact Hmd.
+Qed.
+
+(* same key => same descriptor / index and same first name: the `merge_equal` arms and the
+   first-name check of `merge_names` cannot fire for classes, fields and methods *)
+Lemma field_key_inj x y : Pfield x -> Pfield y -> field_key x = field_key y ->
+  f_desc x = f_desc y /\ nth_name (f_names x) 0 = nth_name (f_names y) 0.
+Proof.
+  intros Hx Hy E. destruct (field_shape _ _ Hx) as (_ & s & Hs & Hkx).
+  destruct (field_shape _ _ Hy) as (_ & t & Ht & Hky). rewrite Hkx, Hky in E.
+  injection E as -> E2. split; [exact E2|congruence].
+Qed.
+
+Lemma meth_key_inj x y : Pmeth x -> Pmeth y -> meth_key x = meth_key y ->
+  m_desc x = m_desc y /\ nth_name (m_names x) 0 = nth_name (m_names y) 0.
+Proof.
+  intros Hx Hy E. destruct (meth_shape _ _ Hx) as (_ & (s & Hs & Hkx) & _).
+  destruct (meth_shape _ _ Hy) as (_ & (t & Ht & Hky) & _). rewrite Hkx, Hky in E.
+  injection E as -> E2. split; [exact E2|congruence].
+Qed.
+
+Lemma class_key_inj x y : Pclass x -> Pclass y -> class_key x = class_key y ->
+  nth_name (c_names x) 0 = nth_name (c_names y) 0.
+Proof.
+  intros Hx Hy E. destruct (class_shape _ _ Hx) as (_ & (s & Hs & Hkx) & _).
+  destruct (class_shape _ _ Hy) as (_ & (t & Ht & Hky) & _). congruence.
+Qed.
+
+(* ---------- parameters ---------- *)
+Definition pconf (c : comb param) : Prop := cdoc_conflict p_doc c \/ first_differs p_names c.
+
+Lemma merge_param_ok c w : cohk param_key c -> cwf Pparam c -> merge_param c = Ok w ->
+  param_key w = ckey param_key c
+  /\ p_names w = row3 (option_map p_names (cl c)) (option_map p_names (cr c))
+  /\ p_doc w = first_some (odoc p_doc (cl c)) (odoc p_doc (cr c))
+  /\ wf_param 3 w = true.
+Proof.
+  intros Hk Hw. unfold merge_param.
+  rewrite (merge_equal_same N.eqb N_eqb_ok p_index c) by (destruct c; auto). cbn [bind].
+  destruct (merge_names (cmap p_names c)) as [n|] eqn:En; cbn [bind]; [|discriminate].
+  destruct (merge_doc (cmap p_doc c)) as [d|] eqn:Ed; cbn [bind]; [|discriminate].
+  intros [= <-]. unfold param_key. cbn [p_index p_names p_doc].
+  apply merge_names_ok in En; [|exact Hw]. destruct En as (-> & Hn3 & _).
+  apply merge_doc_ok in Ed. subst d.
+  split; [destruct c; reflexivity|]. split; [reflexivity|]. split; [reflexivity|exact Hn3].
+Qed.
+
+Lemma merge_param_err c : cohk param_key c -> cwf Pparam c -> (merge_param c = Err <-> pconf c).
+Proof.
+  intros Hk Hw. unfold merge_param, pconf.
+  rewrite (merge_equal_same N.eqb N_eqb_ok p_index c) by (destruct c; auto). cbn [bind].
+  rewrite bind_err, (merge_names_err p_names c Hw). split.
+  - intros [H|(n & _ & H)]; [right; exact H|]. left.
+    apply bind_err in H. destruct H as [H|(d & _ & H)]; [|discriminate]. apply merge_doc_err. exact H.
+  - intros [H|H]; [|left; exact H].
+    destruct (merge_names (cmap p_names c)) as [n|] eqn:En.
+    + right. exists n. split; [reflexivity|]. apply bind_err. left. apply merge_doc_err. exact H.
+    + left. apply (merge_names_err p_names c Hw). exact En.
+Qed.
+
+(* ---------- fields ---------- *)
+Lemma merge_field_ok c w : cohk field_key c -> cwf Pfield c -> merge_field c = Ok w ->
+  field_key w = ckey field_key c
+  /\ f_names w = row3 (option_map f_names (cl c)) (option_map f_names (cr c))
+  /\ f_doc w = first_some (odoc f_doc (cl c)) (odoc f_doc (cr c))
+  /\ wf_field 3 w = true.
+Proof.
+  intros Hk Hw. unfold merge_field.
+  assert (Hn2 : cwf (fun x => names_ok 2 (f_names x) = true) c).
+  { revert Hw. apply cwf_impl. intros x Hx. apply (field_shape _ _ Hx). }
+  rewrite (merge_equal_same str_eqb str_eqb_ok f_desc c).
+  2:{ destruct c as [x|y|x y]; auto. destruct Hw as [Hx Hy]. apply (field_key_inj x y Hx Hy Hk). }
+  cbn [bind].
+  destruct (merge_names (cmap f_names c)) as [n|] eqn:En; cbn [bind]; [|discriminate].
+  destruct (merge_doc (cmap f_doc c)) as [d|] eqn:Ed; cbn [bind]; [|discriminate].
+  intros [= <-]. apply merge_names_ok in En; [|exact Hn2]. destruct En as (-> & Hn3 & _).
+  apply merge_doc_ok in Ed. subst d.
+  assert (Hkey : field_key (mkField (match c with CA x => f_desc x | CB y => f_desc y | CAB x _ => f_desc x end)
+                   (row3 (option_map f_names (cl c)) (option_map f_names (cr c)))
+                   (first_some (odoc f_doc (cl c)) (odoc f_doc (cr c)))) = ckey field_key c).
+  { unfold field_key at 1. cbn [f_names f_desc]. rewrite first_name_row3.
+    destruct c as [x|y|x y]; cbn [cl cr option_map col ckey cwf] in *.
+    - destruct (field_shape _ _ Hw) as (_ & s & -> & ->). reflexivity.
+    - destruct (field_shape _ _ Hw) as (_ & s & -> & ->). reflexivity.
+    - destruct Hw as [Hx _]. destruct (field_shape _ _ Hx) as (_ & s & -> & ->). reflexivity. }
+  split; [exact Hkey|]. cbn [f_names f_doc]. split; [reflexivity|]. split; [reflexivity|].
+  unfold wf_field. cbn [f_names]. rewrite Hn3, Hkey. cbn [andb].
+  destruct c as [x|y|x y]; cbn [ckey cwf] in *.
+  - destruct (field_shape _ _ Hw) as (_ & s & _ & ->). reflexivity.
+  - destruct (field_shape _ _ Hw) as (_ & s & _ & ->). reflexivity.
+  - destruct Hw as [Hx _]. destruct (field_shape _ _ Hx) as (_ & s & _ & ->). reflexivity.
+Qed.
+
+Lemma merge_field_err c : cohk field_key c -> cwf Pfield c -> (merge_field c = Err <-> cdoc_conflict f_doc c).
+Proof.
+  intros Hk Hw. unfold merge_field.
+  assert (Hn2 : cwf (fun x => names_ok 2 (f_names x) = true) c).
+  { revert Hw. apply cwf_impl. intros x Hx. apply (field_shape _ _ Hx). }
+  assert (Hnd : ~ first_differs f_names c).
+  { destruct c as [x|y|x y]; cbn [first_differs]; auto. destruct Hw as [Hx Hy].
+    destruct (field_key_inj x y Hx Hy Hk) as [_ E]. intros H. apply H. exact E. }
+  rewrite (merge_equal_same str_eqb str_eqb_ok f_desc c).
+  2:{ destruct c as [x|y|x y]; auto. destruct Hw as [Hx Hy]. apply (field_key_inj x y Hx Hy Hk). }
+  cbn [bind]. rewrite bind_err, (merge_names_err f_names c Hn2). split.
+  - intros [H|(n & _ & H)]; [contradiction|].
+    apply bind_err in H. destruct H as [H|(d & _ & H)]; [|discriminate]. apply merge_doc_err. exact H.
+  - intros H. destruct (merge_names (cmap f_names c)) as [n|] eqn:En.
+    + right. exists n. split; [reflexivity|]. apply bind_err. left. apply merge_doc_err. exact H.
+    + exfalso. apply Hnd. apply (merge_names_err f_names c Hn2). exact En.
+Qed.
+
+(* ---------- consequences of zip_spec ---------- *)
+Lemma zip_spec_Forall {K V} (eqb : K -> K -> bool) (Hok : eqb_ok eqb) (key : V -> K) f la lb r (Q : V -> Prop) :
+  NoDup (map key la) -> NoDup (map key lb) -> zip_spec eqb key f la lb r ->
+  (forall k c w, comb_of (find_by eqb key k la) (find_by eqb key k lb) = Some c -> f c = Ok w -> Q w) ->
+  Forall Q r.
+Proof.
+  intros Ha Hb (Hz & _ & _) HQ. apply Forall_forall. intros w Hw.
+  destruct (Forall2_In_r _ _ _ _ Hz Hw) as (c & Hc & Hf).
+  apply (zip_list_In eqb Hok key la lb c Ha Hb) in Hc. destruct Hc as (k & Hc). apply (HQ k c w Hc Hf).
+Qed.
+
+Lemma zip_spec_NoDup {K V} (eqb : K -> K -> bool) (Hok : eqb_ok eqb) (key : V -> K) f la lb r :
+  NoDup (map key la) -> NoDup (map key lb) -> zip_spec eqb key f la lb r -> NoDup (map key r).
+Proof. intros Ha Hb (_ & Hk & _). rewrite Hk. apply (union_NoDup eqb Hok); assumption. Qed.
+
+Lemma bind3_err {A B C D} (r1 : res A) (r2 : res B) (r3 : res C) (k : A -> B -> C -> D) :
+  (do a <- r1; do b <- r2; do c <- r3; Ok (k a b c)) = Err <-> r1 = Err \/ r2 = Err \/ r3 = Err.
+Proof.
+  destruct r1, r2, r3; cbn [bind]; split; try tauto; try discriminate;
+    intros [H|[H|H]]; discriminate.
+Qed.
+
+Lemma bind4_err {A B C D E} (r1 : res A) (r2 : res B) (r3 : res C) (r4 : res D) (k : A -> B -> C -> D -> E) :
+  (do a <- r1; do b <- r2; do c <- r3; do d <- r4; Ok (k a b c d)) = Err
+  <-> r1 = Err \/ r2 = Err \/ r3 = Err \/ r4 = Err.
+Proof.
+  destruct r1, r2, r3, r4; cbn [bind]; split; try tauto; try discriminate;
+    intros [H|[H|[H|H]]]; discriminate.
+Qed.
+
+(* ---------- methods ---------- *)
+Lemma prms_wf n o : (forall x, o = Some x -> wf_meth n x = true) ->
+  Forall (fun p => wf_param n p = true) (prms o) /\ NoDup (map param_key (prms o)).
+Proof.
+  destruct o as [m|]; cbn [prms map]; [|intros _; split; constructor].
+  intros H. apply (meth_shape _ _ (H m eq_refl)).
+Qed.
+
+Lemma cwf_side {V} (P : V -> Prop) (c : comb V) : cwf P c ->
+  (forall x, cl c = Some x -> P x) /\ (forall y, cr c = Some y -> P y).
+Proof.
+  destruct c as [x|y|x y]; cbn [cwf cl cr]; intros H; split; intros z [= <-]; tauto.
+Qed.
+
+Definition mconf (c : comb meth) : Prop :=
+  cdoc_conflict m_doc c
+  \/ exists i pc, comb_of (find_by N.eqb param_key i (prms (cl c))) (find_by N.eqb param_key i (prms (cr c))) = Some pc
+                  /\ pconf pc.
+
+Lemma merge_meth_ok c w : cohk meth_key c -> cwf Pmeth c -> merge_meth c = Ok w ->
+  meth_key w = ckey meth_key c
+  /\ m_names w = row3 (option_map m_names (cl c)) (option_map m_names (cr c))
+  /\ m_doc w = first_some (odoc m_doc (cl c)) (odoc m_doc (cr c))
+  /\ zip_spec N.eqb param_key merge_param (prms (cl c)) (prms (cr c)) (m_params w)
+  /\ wf_meth 3 w = true.
+Proof.
+  intros Hk Hw. unfold merge_meth.
+  assert (Hn2 : cwf (fun x => names_ok 2 (m_names x) = true) c).
+  { revert Hw. apply cwf_impl. intros x Hx. apply (meth_shape _ _ Hx). }
+  destruct (cwf_side _ _ Hw) as [Hwl Hwr].
+  destruct (prms_wf 2 (cl c) Hwl) as [Hpa Hna]. destruct (prms_wf 2 (cr c) Hwr) as [Hpb Hnb].
+  rewrite (merge_equal_same str_eqb str_eqb_ok m_desc c).
+  2:{ destruct c as [x|y|x y]; auto. destruct Hw as [Hx Hy]. apply (meth_key_inj x y Hx Hy Hk). }
+  cbn [bind].
+  destruct (merge_names (cmap m_names c)) as [n|] eqn:En; cbn [bind]; [|discriminate].
+  destruct (zip_comb N.eqb param_key (cmap m_params c) merge_param) as [ps|] eqn:Ez; cbn [bind]; [|discriminate].
+  destruct (merge_doc (cmap m_doc c)) as [d|] eqn:Ed; cbn [bind]; [|discriminate].
+  intros [= <-]. apply merge_names_ok in En; [|exact Hn2]. destruct En as (-> & Hn3 & _).
+  apply merge_doc_ok in Ed. subst d.
+  assert (Hpk : forall k pc pw,
+             comb_of (find_by N.eqb param_key k (prms (cl c))) (find_by N.eqb param_key k (prms (cr c))) = Some pc ->
+             merge_param pc = Ok pw -> param_key pw = k /\ wf_param 3 pw = true).
+  { intros k pc pw Hc Hf.
+    destruct (arises_ok N.eqb N_eqb_ok param_key Pparam _ _ k pc Hpa Hpb Hc) as (Hck & Hco & Hcw).
+    destruct (merge_param_ok pc pw Hco Hcw Hf) as (Hkey & _ & _ & Hwf). split; [congruence|exact Hwf]. }
+  assert (Hzs : zip_spec N.eqb param_key merge_param (prms (cl c)) (prms (cr c)) ps).
+  { pose proof (zip_comb_ok N.eqb N_eqb_ok param_key (cmap m_params c) merge_param ps) as Hz.
+    rewrite side_a_cmap, side_b_cmap in Hz. apply Hz; [exact Hna|exact Hnb| |exact Ez].
+    intros k pc pw Hc Hf. apply (Hpk k pc pw Hc Hf). }
+  assert (Hkey : meth_key (mkMeth (match c with CA x => m_desc x | CB y => m_desc y | CAB x _ => m_desc x end)
+                   (row3 (option_map m_names (cl c)) (option_map m_names (cr c)))
+                   (first_some (odoc m_doc (cl c)) (odoc m_doc (cr c))) ps) = ckey meth_key c).
+  { unfold meth_key at 1. cbn [m_names m_desc]. rewrite first_name_row3.
+    destruct c as [x|y|x y]; cbn [cl cr option_map col ckey cwf] in *.
+    - destruct (meth_shape _ _ Hw) as (_ & (s & -> & ->) & _). reflexivity.
+    - destruct (meth_shape _ _ Hw) as (_ & (s & -> & ->) & _). reflexivity.
+    - destruct Hw as [Hx _]. destruct (meth_shape _ _ Hx) as (_ & (s & -> & ->) & _). reflexivity. }
+  split; [exact Hkey|]. cbn [m_names m_doc m_params]. split; [reflexivity|]. split; [reflexivity|].
+  split; [exact Hzs|].
+  unfold wf_meth. cbn [m_names m_params]. rewrite Hn3, Hkey. cbn [andb].
+  assert (Hsome : is_some (ckey meth_key c) = true).
+  { destruct c as [x|y|x y]; cbn [ckey cwf] in *.
+    - destruct (meth_shape _ _ Hw) as (_ & (s & _ & ->) & _). reflexivity.
+    - destruct (meth_shape _ _ Hw) as (_ & (s & _ & ->) & _). reflexivity.
+    - destruct Hw as [Hx _]. destruct (meth_shape _ _ Hx) as (_ & (s & _ & ->) & _). reflexivity. }
+  rewrite Hsome. cbn [andb]. apply andb_true_iff. split.
+  - apply forallb_forall. apply Forall_forall.
+    apply (zip_spec_Forall N.eqb N_eqb_ok param_key merge_param _ _ ps _ Hna Hnb Hzs).
+    intros k pc pw Hc Hf. apply (Hpk k pc pw Hc Hf).
+  - apply (nodupb_NoDup N.eqb N_eqb_ok).
+    apply (zip_spec_NoDup N.eqb N_eqb_ok param_key merge_param _ _ ps Hna Hnb Hzs).
+Qed.
+
+Lemma merge_meth_err c : cohk meth_key c -> cwf Pmeth c -> (merge_meth c = Err <-> mconf c).
+Proof.
+  intros Hk Hw. unfold merge_meth, mconf.
+  assert (Hn2 : cwf (fun x => names_ok 2 (m_names x) = true) c).
+  { revert Hw. apply cwf_impl. intros x Hx. apply (meth_shape _ _ Hx). }
+  assert (Hnd : ~ first_differs m_names c).
+  { destruct c as [x|y|x y]; cbn [first_differs]; auto. destruct Hw as [Hx Hy].
+    destruct (meth_key_inj x y Hx Hy Hk) as [_ E]. intros H. apply H. exact E. }
+  destruct (cwf_side _ _ Hw) as [Hwl Hwr].
+  destruct (prms_wf 2 (cl c) Hwl) as [Hpa Hna]. destruct (prms_wf 2 (cr c) Hwr) as [Hpb Hnb].
+  rewrite (merge_equal_same str_eqb str_eqb_ok m_desc c).
+  2:{ destruct c as [x|y|x y]; auto. destruct Hw as [Hx Hy]. apply (meth_key_inj x y Hx Hy Hk). }
+  cbn [bind].
+  rewrite (bind3_err _ _ _ (fun n ps d => mkMeth _ n d ps)).
+  rewrite (merge_names_err m_names c Hn2), (merge_doc_err m_doc c).
+  pose proof (zip_comb_err N.eqb N_eqb_ok param_key (cmap m_params c) merge_param) as Hz.
+  rewrite side_a_cmap, side_b_cmap in Hz. rewrite (Hz Hna Hnb). clear Hz.
+  split.
+  - intros [H|[(k & pc & Hc & Hf)|H]]; [contradiction| |left; exact H].
+    right. exists k, pc. split; [exact Hc|].
+    destruct (arises_ok N.eqb N_eqb_ok param_key Pparam _ _ k pc Hpa Hpb Hc) as (_ & Hco & Hcw).
+    apply (merge_param_err pc Hco Hcw). exact Hf.
+  - intros [H|(k & pc & Hc & Hf)]; [right; right; exact H|].
+    right. left. exists k, pc. split; [exact Hc|].
+    destruct (arises_ok N.eqb N_eqb_ok param_key Pparam _ _ k pc Hpa Hpb Hc) as (_ & Hco & Hcw).
+    apply (merge_param_err pc Hco Hcw). exact Hf.
+Qed.
+
+(* ---------- classes ---------- *)
+Lemma flds_wf n o : (forall x, o = Some x -> wf_class n x = true) ->
+  Forall (fun f => wf_field n f = true) (flds o) /\ NoDup (map field_key (flds o)).
+Proof.
+  destruct o as [c|]; cbn [flds map]; [|intros _; split; constructor].
+  intros H. destruct (class_shape _ _ (H c eq_refl)) as (_ & _ & H1 & H2 & _). auto.
+Qed.
+
+Lemma mths_wf n o : (forall x, o = Some x -> wf_class n x = true) ->
+  Forall (fun m => wf_meth n m = true) (mths o) /\ NoDup (map meth_key (mths o)).
+Proof.
+  destruct o as [c|]; cbn [mths map]; [|intros _; split; constructor].
+  intros H. destruct (class_shape _ _ (H c eq_refl)) as (_ & _ & _ & _ & H1 & H2). auto.
+Qed.
+
+Definition cconf (c : comb class) : Prop :=
+  cdoc_conflict c_doc c
+  \/ (exists fk fc, comb_of (find_by mkeqb field_key fk (flds (cl c))) (find_by mkeqb field_key fk (flds (cr c))) = Some fc
+                    /\ cdoc_conflict f_doc fc)
+  \/ (exists mk mc, comb_of (find_by mkeqb meth_key mk (mths (cl c))) (find_by mkeqb meth_key mk (mths (cr c))) = Some mc
+                    /\ mconf mc).
+
+Lemma merge_class_ok c w : cohk class_key c -> cwf Pclass c -> merge_class c = Ok w ->
+  class_key w = ckey class_key c
+  /\ c_names w = row3 (option_map c_names (cl c)) (option_map c_names (cr c))
+  /\ c_doc w = first_some (odoc c_doc (cl c)) (odoc c_doc (cr c))
+  /\ zip_spec mkeqb field_key merge_field (flds (cl c)) (flds (cr c)) (c_fields w)
+  /\ zip_spec mkeqb meth_key merge_meth (mths (cl c)) (mths (cr c)) (c_methods w)
+  /\ wf_class 3 w = true.
+Proof.
+  intros Hk Hw. unfold merge_class.
+  assert (Hn2 : cwf (fun x => names_ok 2 (c_names x) = true) c).
+  { revert Hw. apply cwf_impl. intros x Hx. apply (class_shape _ _ Hx). }
+  destruct (cwf_side _ _ Hw) as [Hwl Hwr].
+  destruct (flds_wf 2 (cl c) Hwl) as [Hfa Hnfa]. destruct (flds_wf 2 (cr c) Hwr) as [Hfb Hnfb].
+  destruct (mths_wf 2 (cl c) Hwl) as [Hma Hnma]. destruct (mths_wf 2 (cr c) Hwr) as [Hmb Hnmb].
+  destruct (merge_names (cmap c_names c)) as [n|] eqn:En; cbn [bind]; [|discriminate].
+  destruct (zip_comb mkeqb field_key (cmap c_fields c) merge_field) as [fs|] eqn:Ef; cbn [bind]; [|discriminate].
+  destruct (zip_comb mkeqb meth_key (cmap c_methods c) merge_meth) as [ms|] eqn:Em; cbn [bind]; [|discriminate].
+  destruct (merge_doc (cmap c_doc c)) as [d|] eqn:Ed; cbn [bind]; [|discriminate].
+  intros [= <-]. apply merge_names_ok in En; [|exact Hn2]. destruct En as (-> & Hn3 & _).
+  apply merge_doc_ok in Ed. subst d.
+  assert (Hfk : forall k fc fw,
+             comb_of (find_by mkeqb field_key k (flds (cl c))) (find_by mkeqb field_key k (flds (cr c))) = Some fc ->
+             merge_field fc = Ok fw -> field_key fw = k /\ wf_field 3 fw = true).
+  { intros k fc fw Hc Hf.
+    destruct (arises_ok mkeqb mkeqb_ok field_key Pfield _ _ k fc Hfa Hfb Hc) as (Hck & Hco & Hcw).
+    destruct (merge_field_ok fc fw Hco Hcw Hf) as (Hkey & _ & _ & Hwf). split; [congruence|exact Hwf]. }
+  assert (Hmk : forall k mc mw,
+             comb_of (find_by mkeqb meth_key k (mths (cl c))) (find_by mkeqb meth_key k (mths (cr c))) = Some mc ->
+             merge_meth mc = Ok mw -> meth_key mw = k /\ wf_meth 3 mw = true).
+  { intros k mc mw Hc Hf.
+    destruct (arises_ok mkeqb mkeqb_ok meth_key Pmeth _ _ k mc Hma Hmb Hc) as (Hck & Hco & Hcw).
+    destruct (merge_meth_ok mc mw Hco Hcw Hf) as (Hkey & _ & _ & _ & Hwf). split; [congruence|exact Hwf]. }
+  assert (Hzf : zip_spec mkeqb field_key merge_field (flds (cl c)) (flds (cr c)) fs).
+  { pose proof (zip_comb_ok mkeqb mkeqb_ok field_key (cmap c_fields c) merge_field fs) as Hz.
+    rewrite side_a_cmap, side_b_cmap in Hz. apply Hz; [exact Hnfa|exact Hnfb| |exact Ef].
+    intros k fc fw Hc Hf. apply (Hfk k fc fw Hc Hf). }
+  assert (Hzm : zip_spec mkeqb meth_key merge_meth (mths (cl c)) (mths (cr c)) ms).
+  { pose proof (zip_comb_ok mkeqb mkeqb_ok meth_key (cmap c_methods c) merge_meth ms) as Hz.
+    rewrite side_a_cmap, side_b_cmap in Hz. apply Hz; [exact Hnma|exact Hnmb| |exact Em].
+    intros k mc mw Hc Hf. apply (Hmk k mc mw Hc Hf). }
+  assert (Hkey : class_key (mkClass (row3 (option_map c_names (cl c)) (option_map c_names (cr c)))
+                   (first_some (odoc c_doc (cl c)) (odoc c_doc (cr c))) fs ms) = ckey class_key c
+                 /\ is_some (ckey class_key c) = true).
+  { unfold class_key at 1. cbn [c_names]. rewrite first_name_row3.
+    destruct c as [x|y|x y]; cbn [cl cr option_map col ckey cwf] in *.
+    - destruct (class_shape _ _ Hw) as (_ & (s & -> & ->) & _). auto.
+    - destruct (class_shape _ _ Hw) as (_ & (s & -> & ->) & _). auto.
+    - destruct Hw as [Hx _]. destruct (class_shape _ _ Hx) as (_ & (s & -> & ->) & _). auto. }
+  destruct Hkey as [Hkey Hsome].
+  split; [exact Hkey|]. cbn [c_names c_doc c_fields c_methods]. split; [reflexivity|]. split; [reflexivity|].
+  split; [exact Hzf|]. split; [exact Hzm|].
+  unfold wf_class. cbn [c_names c_fields c_methods]. rewrite Hn3, Hkey, Hsome. cbn [andb].
+  rewrite !andb_true_iff. repeat split.
+  - apply forallb_forall. apply Forall_forall.
+    apply (zip_spec_Forall mkeqb mkeqb_ok field_key merge_field _ _ fs _ Hnfa Hnfb Hzf).
+    intros k fc fw Hc Hf. apply (Hfk k fc fw Hc Hf).
+  - apply (nodupb_NoDup mkeqb mkeqb_ok).
+    apply (zip_spec_NoDup mkeqb mkeqb_ok field_key merge_field _ _ fs Hnfa Hnfb Hzf).
+  - apply forallb_forall. apply Forall_forall.
+    apply (zip_spec_Forall mkeqb mkeqb_ok meth_key merge_meth _ _ ms _ Hnma Hnmb Hzm).
+    intros k mc mw Hc Hf. apply (Hmk k mc mw Hc Hf).
+  - apply (nodupb_NoDup mkeqb mkeqb_ok).
+    apply (zip_spec_NoDup mkeqb mkeqb_ok meth_key merge_meth _ _ ms Hnma Hnmb Hzm).
+Qed.
+
+Lemma merge_class_err c : cohk class_key c -> cwf Pclass c -> (merge_class c = Err <-> cconf c).
+Proof.
+  intros Hk Hw. unfold merge_class, cconf.
+  assert (Hn2 : cwf (fun x => names_ok 2 (c_names x) = true) c).
+  { revert Hw. apply cwf_impl. intros x Hx. apply (class_shape _ _ Hx). }
+  assert (Hnd : ~ first_differs c_names c).
+  { destruct c as [x|y|x y]; cbn [first_differs]; auto. destruct Hw as [Hx Hy].
+    pose proof (class_key_inj x y Hx Hy Hk) as E. intros H. apply H. exact E. }
+  destruct (cwf_side _ _ Hw) as [Hwl Hwr].
+  destruct (flds_wf 2 (cl c) Hwl) as [Hfa Hnfa]. destruct (flds_wf 2 (cr c) Hwr) as [Hfb Hnfb].
+  destruct (mths_wf 2 (cl c) Hwl) as [Hma Hnma]. destruct (mths_wf 2 (cr c) Hwr) as [Hmb Hnmb].
+  rewrite (bind4_err _ _ _ _ (fun n fs ms d => mkClass n d fs ms)).
+  rewrite (merge_names_err c_names c Hn2), (merge_doc_err c_doc c).
+  pose proof (zip_comb_err mkeqb mkeqb_ok field_key (cmap c_fields c) merge_field) as Hzf.
+  rewrite side_a_cmap, side_b_cmap in Hzf. rewrite (Hzf Hnfa Hnfb). clear Hzf.
+  pose proof (zip_comb_err mkeqb mkeqb_ok meth_key (cmap c_methods c) merge_meth) as Hzm.
+  rewrite side_a_cmap, side_b_cmap in Hzm. rewrite (Hzm Hnma Hnmb). clear Hzm.
+  split.
+  - intros [H|[(k & fc & Hc & Hf)|[(k & mc & Hc & Hf)|H]]]; [contradiction| | |left; exact H].
+    + right. left. exists k, fc. split; [exact Hc|].
+      destruct (arises_ok mkeqb mkeqb_ok field_key Pfield _ _ k fc Hfa Hfb Hc) as (_ & Hco & Hcw).
+      apply (merge_field_err fc Hco Hcw). exact Hf.
+    + right. right. exists k, mc. split; [exact Hc|].
+      destruct (arises_ok mkeqb mkeqb_ok meth_key Pmeth _ _ k mc Hma Hmb Hc) as (_ & Hco & Hcw).
+      apply (merge_meth_err mc Hco Hcw). exact Hf.
+  - intros [H|[(k & fc & Hc & Hf)|(k & mc & Hc & Hf)]]; [right; right; right; exact H| |].
+    + right. left. exists k, fc. split; [exact Hc|].
+      destruct (arises_ok mkeqb mkeqb_ok field_key Pfield _ _ k fc Hfa Hfb Hc) as (_ & Hco & Hcw).
+      apply (merge_field_err fc Hco Hcw). exact Hf.
+    + right. right. left. exists k, mc. split; [exact Hc|].
+      destruct (arises_ok mkeqb mkeqb_ok meth_key Pmeth _ _ k mc Hma Hmb Hc) as (_ & Hco & Hcw).
+      apply (merge_meth_err mc Hco Hcw). exact Hf.
 Qed.
